@@ -36,6 +36,15 @@ T = {
  "C21": ("codec", "fault_enumeration", "fault enumeration on stored records: round trip + every single-bit flip + every truncation length, read back through the library's own readers",
          "For each generated record all 8n single-bit flips and all n truncation lengths are applied to the stored bytes; allowed outcomes are error, absent, or the identical record.",
          "CRC-32 detects all single-bit errors of a fixed-length message; flips in length fields rely on no checksum collision (2^-32 per read)."),
+ "C15": ("refmodel", "exploration", "runtime monitor: reference-model full observation immediately before/after every Merge, after later writes and after reopen, plus index structure walkers; injected failed commits leave uncommitted records in the log",
+         "Seeded histories with small segments (5-80 files merged), Merge at four kinds of points; one scenario class per structure kind so the list finding cannot hide KV/set/sorted-set regressions.",
+         "No concurrent transaction (that is C17). Lists are a known finding (KF-MERGE-LIST)."),
+ "C16": ("crashfs", "fault_enumeration", "fault enumeration: every file-mutation event inside Merge (and every torn prefix of its writes) -> crash image -> real Open -> full observation vs contents before Merge",
+         "Same image construction as C10, restricted to the events between Merge's first and last file operation.",
+         "Crash model as C10. Lists and positional sorted-set removals are known findings (KF-MERGE-CRASH-LIST, KF-MERGE-CRASH-ZPOP)."),
+ "C22": ("refmodel", "exploration", "runtime monitor: 3x3 creator-mode x reopen-mode matrix over directory states, Open's verdict plus byte-level directory digest before/after, full observation when the modes are compatible",
+         "Directory states: never opened, opened and closed, written, many segments, merged, crashed (process-crash images).",
+         "KV data only."),
  "C05": ("refmodel", "exploration", "runtime monitor: Redis-list reference model; bounded-exhaustive state x operation x argument sweep on the exported list type plus one-operation-per-transaction histories with full observation",
          "Exhaustive for the bounded scope on ds/list.List (781 states x 3 construction paths x all arguments, all short sequences), random long sequences, and transaction-level histories with reopen; every call result and resulting list compared with the model.",
          "Model tolerates the documented error-instead-of-clamp choices; a panic is never tolerated."),
